@@ -96,7 +96,7 @@ theorem handle_mem_handles (t : HTree) : t.handle ∈ handles t := by
 theorem handles_eq (t : HTree) : handles t = t.handle :: handlesList t.kids := by
   cases t with | node h v ks => simp [handles, HTree.handle, HTree.kids]
 
-theorem handlesList_append (a b : List HTree) :
+theorem fa_handlesList_append (a b : List HTree) :
     handlesList (a ++ b) = handlesList a ++ handlesList b := by
   induction a with
   | nil => simp [handlesList]
@@ -199,7 +199,7 @@ theorem leafOk_kids_nil {t : HTree} (hl : leafOk t = true) (he : t.value.isEleme
 /-! ### Sublists, `Nodup` of subtrees, finding a child -/
 
 mutual
-  theorem find?_sublist (h : Nat) : ∀ (t t' : HTree), find? h t = some t' →
+  theorem fa_find?_sublist (h : Nat) : ∀ (t t' : HTree), find? h t = some t' →
       (handles t').Sublist (handles t)
     | .node h' v ks, t' => by
       unfold find?
@@ -218,7 +218,7 @@ mutual
       cases hk : find? h k with
       | some t =>
         simp only [Option.some.injEq]; intro e; subst e
-        exact List.Sublist.trans (find?_sublist h k t hk) (List.sublist_append_left _ _)
+        exact List.Sublist.trans (fa_find?_sublist h k t hk) (List.sublist_append_left _ _)
       | none =>
         simp only; intro e
         exact List.Sublist.trans (findList?_sublist h ks t' e) (List.sublist_append_right _ _)
